@@ -13,6 +13,9 @@ CLAIMED = {
  "C09": ("DESIGN.md §4 C09",
          "Deductive proof (loop-free, hence complete) that mergeChanges preserves the fold: for every view consistent with a and b chaining on a, applying the merged event equals applying both; add;remove cancels, remove;add becomes replace, old values chain, LastSeedValue is or-ed, the newest value/time win.",
          "Kinds restricted to ADD/UPDATE/REPLACE/REMOVE (the ones that can occur). Not decided by this family: writers not waiting, eventual delivery, the 5 s send timeout (liveness/timing); DropExcess and mergeCollectionExcess step invariants are added in later revisions."),
+ "C11": ("DESIGN.md §4 C11",
+         "Deductive proof of the guarded-by lock discipline on the real code: for Value{value,changeTime}, Collection{byId; rng under rngMu}, router{registry}, Bus{listeners}, listener{ch}, waste Model{allWasteRecords,genId}, every load of a guarded field (and of maps / shared backing arrays reached through it) happens with the mutex held, every store and every mutating call with it held for writing, on every path of every module function that touches such a field (the sweep finds accessors from SSA, so a new unannotated accessor is checked, not missed); Lock/Unlock pairing (no self-deadlock, no unlock of an unheld mutex) is proved along the way.",
+         "Narrow: lock discipline only. Not decided: races ordered by channel operations (wrap.ClientServerStream), group (channels only), races inside dependencies or on caller-owned objects; closures are checked where the module calls them (inlined), not when they escape to foreign code; objects allocated by the very call are exempt until it returns; item/message immutability after publication is C07's concern. Assumes unknown code does not lock/unlock the module's mutexes."),
  "C15": ("DESIGN.md §4 C15",
          "Deductive proof on the real code of the seven paged RPCs (ListModes, ListHails, ListPublications, ListConsumables, ListInventory, ListChildren, ListWasteRecords), for every collection content, page size and token: no index/slice panic, a negative page_size yields an error status, the page is the contiguous segment of the key-sorted listing that starts at the first key greater than the token's key, is at most the capped size (default 50, cap 1000) and is full unless it reaches the end, total_size is the listing length, the token is dropped on the last page; waste pages count down from a start index clamped into range. sort.Search/sort.Slice are used through contracts stated over the call site's own predicate.",
          "Assumed: each model's List*() result is sorted strictly by the paging key (trusted postcondition; follows from C01's sorted Collection.List plus stored items carrying their collection id), sort.Search/sort.Slice/base64/proto.Marshal library contracts, token round trip through base64+proto (the chain-of-pages partition argument composes the per-call contract with it and is stated, not machine-checked). The read-mask loop of ListChildren is covered for safety and framing only."),
